@@ -58,8 +58,10 @@ let builder_case ?(timed=false) id ops_s tf_s =
   else match build g with
   | BPanic -> obs id "B" "P"
   | BOof -> obs id "B" "OOF"
-  | BOk (gg, pops, queries) ->
+  | BOk (gg0, pops, queries) ->
     obs id "B" "ok";
+    let (gg, refused) = Runtime_driver.apply_override id gg0 in
+    if refused then obs id "GX" "override-refused";
     obs id "E" (str_edges gg.fg_edges);
     obs id "K" (str_ints gg.fg_ranks);
     let io = iter_order gg and ro = iter_rev_order gg and mo = map_order gg in
@@ -71,7 +73,7 @@ let builder_case ?(timed=false) id ops_s tf_s =
     obs id "TF" (try_line mo ks); obs id "TE" (try_line mo ks);
     obs id "P" (Printf.sprintf "%d %d" (int_of_nat pops) (int_of_nat queries));
     (match build g with
-     | BOk (g2, _, _) -> obs id "Q" (Printf.sprintf "%d %d" (if fngraph_eq gg g2 then 1 else 0)
+     | BOk (g2, _, _) -> obs id "Q" (Printf.sprintf "%d %d" (if fngraph_eq gg0 g2 then 1 else 0)
                                        (if gg.fg_ranks = g2.fg_ranks then 1 else 0))
      | _ -> obs id "Q" "X");
     (match gi_from_graph gg fid with
